@@ -35,19 +35,31 @@ PROPS = {
                 assume=COMMON_ASSUME + ["package clock replaced through the package's own timeNow/timeAfterFunc test variables; due timers may stay in flight across later ops (Stop() then reports false)"]),
 }
 
-def _pool(test, rule, nontriv, quick=12000, thorough=150000, extra_assume=None):
-    return dict(kind="harness", pkg="./poolsim", test=test,
+CONC_RULE = (" A second generator (engine conc) runs concurrent workloads on sources instrumented with yield points in front of every mutex/atomic operation (schedule perturbed by "
+             "Gosched/microsecond sleeps from a seeded generator): one goroutine issues the serialized balancer callbacks (state flaps, resolver updates, bringing new connections up, completing refreshes), "
+             "2-8 goroutines issue picks and completions on current and stale pickers; thread-safe invariants are observed at the fake ClientConn.")
+
+
+def _pool(test, rule, nontriv, quick=12000, thorough=150000, extra_assume=None, conc=None):
+    d = dict(kind="harness", pkg="./poolsim", test=test,
                 quick=dict(checks=quick, shards=4, timeout=600),
                 thorough=dict(checks=thorough, shards=16, timeout=3000),
                 rule="rapid-generated pool histories (resolver updates, state reports for pool/replacement/removed/unknown conns, picks on current and stale pickers "
                      "with plain/BIND/BOUND/UNBIND methods and keys from a 4-key alphabet, completions with 6 outcomes, clock advances incl. detector-window boundaries +-1ns, "
                      "factory failures; steering composites expand to primitive ops) executed against the real balancer behind a fake ClientConn in a synctest bubble and "
                      "compared step by step with the Appendix A reference model. " + rule + " Non-trivial = " + nontriv +
-                     "; distinct = FNV-1a of the canonical JSON of the case.",
-                assume=POOL_ASSUME + (extra_assume or []))
+                     "; distinct = FNV-1a of the canonical JSON of the case." + (CONC_RULE + " " + conc[1] if conc else ""),
+                assume=POOL_ASSUME + (extra_assume or []) + (["concurrent part: schedules are perturbed, not owned - preemption happens only at the injected yield points and wherever the Go scheduler decides; a time budget that runs out is not a failure"] if conc else []))
+    if conc:
+        d["instr"] = True
+        d["parts"] = [dict(pkg="./poolsim", test=test, replay_key="ops"), dict(pkg="./poolsim", test=test, replay_key="ops"),
+                      dict(pkg="./conc", test=conc[0], replay_key="goroutines", quick_checks=conc[2], thorough_checks=conc[3])]
+        d["quick"]["shards"] = 6
+        d["thorough"]["shards"] = 15
+    return d
 
 
-CONC_RULE = (" A second generator (engine conc) runs concurrent workloads on sources instrumented with yield points in front of every mutex/atomic operation (schedule perturbed by "
+CONC_RULE_PLACEHOLDER = (" A second generator (engine conc) runs concurrent workloads on sources instrumented with yield points in front of every mutex/atomic operation (schedule perturbed by "
              "Gosched/microsecond sleeps from a seeded generator): one goroutine issues the serialized balancer callbacks (state flaps, resolver updates, bringing new connections up, completing refreshes), "
              "2-8 goroutines issue picks and completions on current and stale pickers; thread-safe invariants are observed at the fake ClientConn.")
 
@@ -135,21 +147,27 @@ PROPS.update({
                  "the history has a keyed pick for a bound key with READY home and at least one of {home channel swapped by a refresh, stale picker, saturated home, BIND of an already bound key, UNBIND, home not READY}",
                  extra_assume=["keys whose home channel was dead (Shutdown) while bound are don't-care until unbound; the empty key is no key"]),
     "C02": _pool("TestC02", "Profile 'load'. Oracle: every unkeyed/unknown-key placement is on a channel of the picker's READY snapshot whose model in-flight count (placements minus completions, never read from the library) is minimal; end-of-case drain: after completing every call, n picks land on n distinct READY channels.",
-                 "a least-loaded choice among >=2 snapshot channels plus a completion with a non-ok outcome, after a swap, or on a channel that left READY"),
+                 "a least-loaded choice among >=2 snapshot channels plus a completion with a non-ok outcome, after a swap, or on a channel that left READY",
+                 conc=("TestConcC02", "Invariant: after the workload is quiescent (every completion ran) n picks land on n distinct channels - every count returned to zero.", 300, 5000)),
     "C03": _pool("TestC03", "Profile 'size' ((min,max,watermark) from {0..6}x{0..6}x{0..4} incl. min>max, strict and lenient factories, pool emptied by shutdowns). Oracle: exactly max(1,min) conns after the first non-empty update; growth only by a saturated pick below max with no Idle/Connecting channel, that pick is told to wait; placement at max; size <= max for min<=max; RemoveSubConn only for the old conn of a completed refresh.",
-                 "a growth event, a saturated pick at maxSize, or a re-created pool"),
+                 "a growth event, a saturated pick at maxSize, or a re-created pool",
+                 conc=("TestConcC03", "Invariant: the number of pool channels ever created never exceeds maxSize (min<=max) although saturated picks race on stale and current pickers while new connections are being brought up; RemoveSubConn only inside the take-over of a replacement.", 400, 6000)),
     "C04": _pool("TestC04", "Profile 'states' (hostile state reports for pool/replacement/removed/unknown conns, repeats, shutdowns, refreshes). Oracle: once anything was published the last published state equals the aggregate over pool conns; READY-set change => publication; picker fails fast with ErrTransientFailure iff published with TRANSIENT_FAILURE; reports for non-pool conns publish nothing.",
                  ">=2 distinct published states, >=1 report for a non-pool conn, and a swap or a shutdown"),
     "C07": _pool("TestC07", "Profile 'detector' (unresponsive_calls 0-4, unresponsive_detection_ms in {0,1,7,100,60000,2^31,2^32-1}). Oracle: reference detector per channel (exact big-integer window ms*2^k); refresh attempt during a completion expected <=> observed; failed creation does not disable later refreshes; swap removes the old conn exactly once; detection disabled => never.",
-                 "a refresh expected-and-observed plus one of {boundary hit exactly / +-1ns, backoff k>=1, server-side deadline, deadline call started before the last response, factory refusal, suppressed by refresh in progress}"),
+                 "a refresh expected-and-observed plus one of {boundary hit exactly / +-1ns, backoff k>=1, server-side deadline, deadline call started before the last response, factory refusal, suppressed by refresh in progress}",
+                 conc=("TestConcC07", "Invariant: concurrent qualifying completions on one channel create exactly one replacement while its refresh is in progress; no connection is removed twice.", 120, 2500)),
     "C08": _pool("TestC08", "Profile 'fallback' (fallback_to_ready on). Oracle: keyed pick with home not READY on the most recent picker is placed on a READY channel whenever one exists (also saturated), the stand-in is reused while it stays READY and home stays not READY (follows a refresh of the stand-in), home READY again => home; bindings unchanged by fallback.",
                  ">=1 reuse of a stand-in plus one of {saturated READY set, stand-in refreshed, stand-in failed, home recovered}"),
     "C09": _pool("TestC09", "Profile 'rr' (ROUND_ROBIN, 1-6 channels, BIND picks with deadlines/cancellation, blocked picks observed with synctest.Wait). Oracle: assignments follow creation order cyclically while the composition is unchanged (first after a change re-synchronises); a pick is handed its channel only when READY or after its context ended; blocked picks are released by the READY report / swap / context end within one 100 ms poll period of virtual time; other calls obey the load rule.",
-                 ">=4 in-order BIND assignments or a blocked BIND released by READY or by context end"),
+                 ">=4 in-order BIND assignments or a blocked BIND released by READY or by context end",
+                 conc=("TestConcC09", "Invariant: n*k round-robin BIND picks issued from several goroutines over n READY channels put exactly k on each channel.", 400, 6000)),
     "C05": _pool("TestC05", "Profile 'hostile' (all feature flags random; nil / typed-nil / empty / non-struct request messages; locators that do not resolve, resolve to an empty list or to a non-string; picks and completions without the interceptor context; stale pickers with every conn down; failing and strict factories; empty address lists; nil / foreign / alternative configs; reports for unknown, removed and replacement conns; pool emptied by shutdowns). Oracle: recover() around every library entry - any panic is a violation; a request whose key cannot be extracted is never placed.",
-                 "the history contains at least one hostile element (see the per-class labels)"),
+                 "the history contains at least one hostile element (see the per-class labels)",
+                 conc=("TestConcC05", "Invariant: no pick or completion panics under concurrency.", 300, 5000)),
     "C06": _pool("TestC06", "Profile 'hostile' plus a lock probe after every op (a state report for a never-seen conn must return: the balancer lock is free). Oracle: a real-time watchdog outside the bubble (3 s; normal latency is microseconds) catches any call that does not return; a pick that is not a round-robin BIND must not block (synctest.Wait shows it durably blocked); a blocked round-robin BIND returns once its channel is READY or within one 100 ms poll period of virtual time after its context ended, and other calls keep working meanwhile.",
-                 "the history reaches one of the named states: factory refusing a resolver update (empty list with the strict factory / armed failure), resolver update on an emptied pool, saturated pool with fallback, calls issued while a round-robin BIND is blocked"),
+                 "the history reaches one of the named states: factory refusing a resolver update (empty list with the strict factory / armed failure), resolver update on an emptied pool, saturated pool with fallback, calls issued while a round-robin BIND is blocked",
+                 conc=("TestConcC06", "Invariant: every workload finishes within 20 s (normal: milliseconds): no lock-order deadlock between completions, picks and balancer callbacks, no leaked lock.", 300, 5000)),
     "C20": _pool("TestC20", "Profile 'addresses' (>=3 address lists, resolver errors, growth, refreshes at every stage). Oracle: after every update every alive pool conn has the latest list and was asked to reconnect; growth and replacement conns are created with the latest list; a replacement takes over with the latest list; a resolver error causes no ClientConn call.",
                  "a resolver update while a replacement exists followed by its swap, or growth"),
 })
